@@ -105,6 +105,7 @@ Definition cached_ctx (g : graph) : actx :=
   let trees := map (fun kv => (fst kv, collect_key g (fst kv))) (gr_keys g) in
   ACtx (key_of g)
        (fun k => match alookup k trees with Some r => r | None => collect_key g k end)
+       (fun k => match alookup k (gr_keys g) with Some _ => true | None => false end)
        (length (gr_keys g)).
 
 Definition model_offer (g : graph) (cx : actx) (s : step) : res (option (string * nat)) :=
